@@ -120,6 +120,9 @@ class Engine(object):
             self.solver.add(a)
         self.trig_args = set()
         self.trig_terms = {}
+        self.sqrt_cache = {}
+        self.side_mode = False
+        self.side_count = 0
         self.choice_trace = []
         self.interp.reset_path()
         self.symbols = {}
@@ -132,12 +135,13 @@ class Engine(object):
         t0 = time.time()
 
         def run():
+            self.solver.set("timeout", int(self.feas_timeout_ms))
             self.solver.push()
             self.solver.add(term)
             r = self.solver.check()
             return [str(r), None, None]
 
-        res = _in_child(run, self.feas_timeout_ms / 1000.0 + 1.0)
+        res = _in_child(run, self.feas_timeout_ms / 1000.0 + 0.3)
         self.solver_time += time.time() - t0
         if res is None or res[0] != "unsat":
             return True
@@ -158,7 +162,7 @@ class Engine(object):
             choice = self.prefix[pos]
         else:
             can_t = self._feasible(c)
-            can_f = self._feasible(z3.Not(c))
+            can_f = self._feasible(z3.Not(c)) if can_t else True
             if can_t and can_f:
                 choice = True
                 self.pending.append(self.decisions + [False])
@@ -173,6 +177,26 @@ class Engine(object):
         self.pc.append(lit)
         self.solver.add(lit)
         return choice
+
+    def implicit_raise(self, cond, what):
+        """an operation raises `what` when cond holds.  Default: fork on cond.  In side-condition mode the absence of
+        the exception becomes a verification condition of its own (pc => not cond) and execution continues under
+        `not cond` - the usual treatment of safety conditions in a VC generator, without a path split."""
+        if not getattr(self, "side_mode", False):
+            return self.decide(cond)
+        if isinstance(cond, bool):
+            return cond
+        c = z3.simplify(to_bool(cond).t)
+        if z3.is_false(c):
+            return False
+        if z3.is_true(c):
+            return True
+        self.side_count = getattr(self, "side_count", 0) + 1
+        self.vcs.append(VC("no-%s#%d" % (what, self.side_count), self.paths, list(self.axioms) + list(self.pc),
+                           z3.Not(c), list(self.decisions), "implicit raise", self.choice_trace))
+        self.pc.append(z3.Not(c))
+        self.solver.add(z3.Not(c))
+        return False
 
     def choose(self, n, label=""):
         """n-way non-deterministic choice (all alternatives explored)."""
@@ -278,10 +302,14 @@ class Engine(object):
                 return F(Fraction(rn, rd))
             x = lift(F(x))
         x = to_real(x)
-        if self.decide(x < 0):
+        if self.implicit_raise(x < 0, "ValueError(sqrt)"):
             raise PyRaise(self.interp.make_exc("ValueError", "math domain error"))
+        key = str(z3.simplify(x.t))
+        if key in self.sqrt_cache:
+            return self.sqrt_cache[key]      # sqrt is a function: the same argument gives the same symbol
         s = self.fresh_real("sqrt")
         self.axiom(z3.And(s.t >= 0, s.t * s.t == x.t))
+        self.sqrt_cache[key] = s
         return s
 
     def spec_sqrt(self, x):
